@@ -30,6 +30,7 @@ type hcall struct {
 }
 
 type hdef struct {
+	modify bool
 	id     int
 	dir    string
 	all    bool
@@ -97,6 +98,14 @@ func c19(w *World) {
 		router.HandleOutgoing(mt, func(m simplefixgo.SendingMessage) bool {
 			simrt.Yield("harness.outHandler")
 			d.calls++
+			if d.modify {
+				// a handler may modify the message ("this may be required for modifying messages before
+				// sending"): what it and the handlers after it see must still be what is transmitted
+				if md, ok := m.(*fixgen.MarketDataRequest); ok {
+					md.SetMDUpdateType(itoa(d.calls % 2))
+					w.Probe("handler_modified_message")
+				}
+			}
 			b, _ := m.ToBytes()
 			seq := 0
 			if hbld := m.HeaderBuilder(); hbld != nil {
@@ -133,6 +142,7 @@ func c19(w *World) {
 	var regs []func()
 	for i := 0; i < nAllOut; i++ {
 		d := mk("out", true, "")
+		d.modify = w.W.Chance(1, 2)
 		regs = append(regs, func() { regOut(d) })
 	}
 	for i := 0; i < nTypOut; i++ {
@@ -195,15 +205,18 @@ func c19(w *World) {
 	var inbound [][]byte
 	for i := 0; i < nIn; i++ {
 		var raw []byte
-		switch w.W.Draw(4) {
+		switch w.W.Draw(5) {
 		case 0:
 			raw = sc.Msg("0")
 		case 1:
 			raw = sc.Msg("1", F(TagTestReqID, "in"+itoa(i)))
 		case 2:
 			raw = sc.Msg("D", F(11, "ord"+itoa(i)), F(55, "X/Y"))
-		default:
+		case 3:
 			raw = sc.Msg("V", F(262, "r"+itoa(i)), F(263, "1"), F(264, "0"))
+		default:
+			// types that have a handled type as a prefix: handlers of "V" / "D" / "1" must not see them
+			raw = sc.Msg([]string{"V1", "DD", "10"}[w.W.Draw(3)], F(58, "p"+itoa(i)))
 		}
 		inbound = append(inbound, raw)
 		sc.P.Send(raw)
@@ -321,7 +334,15 @@ func c19(w *World) {
 			if c.refused && i != len(calls)-1 {
 				w.Violate("outgoing-handler-after-refusal", "", fmt.Sprintf("message 34=%d: %d more handler(s) ran after a refusal", n, len(calls)-1-i))
 			}
-			if m, ok := wireBySeq[n]; ok && !bytes.Equal(m.Raw, c.bytes) {
+			// a handler placed before a modifying one legitimately saw the earlier form: only what
+			// was seen from the last modification on must equal the wire
+			afterLastMod := true
+			for _, later := range calls[i+1:] {
+				if defs[later.handler].modify {
+					afterLastMod = false
+				}
+			}
+			if m, ok := wireBySeq[n]; ok && afterLastMod && !bytes.Equal(m.Raw, c.bytes) {
 				w.Violate("handler-saw-different-bytes", m.Type, fmt.Sprintf("message 34=%d: handler saw %s, wire has %s", n, short(c.bytes), short(m.Raw)))
 			}
 		}
@@ -376,6 +397,9 @@ func c19(w *World) {
 		var gotAll, gotTyp []hcall
 		sawType := false
 		for _, c := range calls {
+			if !c.all && defs[c.handler].typ != typ {
+				w.Violate("incoming-handler-wrong-type", typ, fmt.Sprintf("handler registered for type %s was offered a message of type %s", defs[c.handler].typ, typ))
+			}
 			if c.all {
 				if sawType {
 					w.Violate("incoming-handler-order", "all-after-type", "an all-types incoming handler ran after a type-specific one")
